@@ -24,7 +24,10 @@ RULE = ("part 'history': random histories over log / add_destinations(1-3 new de
         "action) while another thread performs the first add_destinations, each schedule in a fresh process under the line-granular "
         "scheduler with LINE events on eliot/_output.py: for every priority order ALL one-preemption schedules plus sampled "
         "2-3-preemption ones. Oracle: every message whose logging call returned is on the destination's tape exactly once, per-thread "
-        "order preserved, messages buffered before the threads started come first. non-trivial = history with >=2 adds and a "
+        "order preserved, messages buffered before the threads started come first. part 'registry': after the hand-over, 2-3 threads "
+        "add and remove destinations (and one logs) concurrently under the same scheduler, all one-preemption schedules: every "
+        "destination whose add returned receives a message logged afterwards, every removed one does not, the destination registered "
+        "throughout receives everything once. non-trivial = history with >=2 adds and a "
         "remove, or >1000 buffered; schedule whose preemption fired inside Destinations.add/send; distinct by history / interleaving hash")
 ASSUMPTIONS = ["switch points are statement boundaries and blocking primitives (CPython granularity)",
                "each destination object is registered at most once at a time"]
@@ -38,6 +41,7 @@ def plan(tier, seed):
     specs = [{"part": "history", "seed": seed, "lo": i, "hi": min(n, i + B)} for i in range(0, n, B)]
     m = 24 if tier == "quick" else 150
     specs += [{"part": "handover", "seed": seed, "i": i, "tier": tier} for i in range(m)]
+    specs += [{"part": "registry", "seed": seed, "i": i, "tier": tier} for i in range(8 if tier == "quick" else 60)]
     return specs
 
 
@@ -56,7 +60,7 @@ def gen_history(rng):
         if r < 0.5:
             ops.append(("log",))
         elif r < 0.7 and ndest < 9:
-            k = rng.randint(1, 3)
+            k = rng.choice([0, 1, 1, 2, 3]) if rng.random() < 0.25 else rng.randint(1, 3)  # add_destinations() with nothing is a call too
             ids = list(range(ndest, ndest + k))
             ndest += k
             live.extend(ids)
@@ -324,7 +328,110 @@ def part_handover(spec, res):
         res["sample"] = {"part": "handover", "threads": names, "messages_per_logger": nmsg, "prebuffered": nprebuf, "baseline_events": base["events"]}
 
 
+def registry_once(plan_, ops):
+    """Fresh process: threads add / remove destinations (and one logs) concurrently after the hand-over is long over."""
+    sched.instrument([_output])
+    tapes = {}
+
+    def make(name):
+        tapes[name] = []
+
+        def d(m, name=name):
+            tapes[name].append(m.get("n"))
+        d.__name__ = name
+        return d
+    base = make("base")
+    pre = {name: make(name) for kind, name in ops if kind == "remove"}
+    add_destinations(base, *pre.values())
+    new = {name: make(name) for kind, name in ops if kind == "add"}
+    logged = []
+
+    def worker(kind, name):
+        def run():
+            if kind == "add":
+                add_destinations(new[name])
+            elif kind == "remove":
+                remove_destination(pre[name])
+            else:
+                for k in range(2):
+                    log_message(message_type="reg", n="during%d" % k)
+                    logged.append("during%d" % k)
+        return run
+    workers = {"W%d" % j: worker(kind, name) for j, (kind, name) in enumerate(ops)}
+    st, errs = sched.run_schedule(plan_, workers, timeout=60.0)
+    log_message(message_type="reg", n="final")
+    return {"stats": {"events": st["events"], "fired": st["fired"], "aborted": st["aborted"], "deadlock": st["deadlock"], "trace": st["trace"]},
+            "errors": {k: repr(v) for k, v in errs.items()}, "tapes": tapes, "logged": logged}
+
+
+def part_registry(spec, res):
+    rng = random.Random("%s:C12:reg:%d" % (spec["seed"], spec["i"]))
+    nops = rng.choice([2, 2, 3])
+    ops = []
+    for j in range(nops):
+        ops.append((rng.choice(["add", "add", "remove"]), "d%d" % j))
+    if rng.random() < 0.5:
+        ops.append(("log", "logger"))
+    names = ["W%d" % j for j in range(len(ops))]
+    c = res["counters"]
+
+    def execute(plan_, label):
+        kind, data = call_in_fork(lambda: registry_once(plan_, ops), timeout=120)
+        res["evals"] += 1
+        c["registry_schedules_run"] = c.get("registry_schedules_run", 0) + 1
+        if kind in ("timeout", "died"):
+            res["inconclusive"] = "registry child %s" % kind
+            return None
+        problems = []
+        if kind != "ok":
+            problems.append("registry run failed: %s" % str(data)[-400:])
+            st = None
+        else:
+            st = data["stats"]
+            if st["deadlock"]:
+                problems.append("add/remove/log deadlocked: %s" % st["deadlock"])
+            elif st["aborted"]:
+                res["inconclusive"] = "schedule abandoned: %s" % st["aborted"]
+                return st
+            for k, e in data["errors"].items():
+                problems.append("thread %s raised %s" % (k, e))
+            tapes = data["tapes"]
+            for opkind, name in ops:
+                got_final = "final" in tapes.get(name, [])
+                if opkind == "add" and not got_final:
+                    problems.append("destination %s was added (call returned) but did not receive a message logged afterwards" % name)
+                if opkind == "remove" and got_final:
+                    problems.append("destination %s was removed (call returned) but still received a message logged afterwards" % name)
+            base = tapes.get("base", [])
+            if base.count("final") != 1 or [x for x in base if x != "final"] != data["logged"]:
+                problems.append("the destination registered throughout received %s, logged %s + final" % (base, data["logged"]))
+            res["sets"]["interleavings"].append(h(st["trace"]))
+            for nm, k, loc in st["fired"]:
+                res["sets"]["preemption_lines"].append(loc)
+            if st["fired"]:
+                res["nontrivial"].append(h(st["trace"]))
+        if problems and len(res["violations"]) < 3:
+            res["violations"].append({"msg": problems[0], "mech": None, "detail": {"part": "registry", "ops": ops, "plan": plan_, "problems": problems[:5], "label": label}})
+        return st
+
+    base = None
+    for order in itertools.permutations(names):
+        base = execute({"order": list(order), "changes": []}, "baseline")
+        if base is None:
+            return
+        for p in sched.one_preemption_plans(list(order), base["events"]):
+            execute(p, "1-preemption")
+            if len(res["violations"]) >= 3:
+                return
+    for p in sched.sampled_plans(rng, names, base["events"], 20 if spec["tier"] == "quick" else 200):
+        execute(p, "sampled")
+
+
 def run_case(spec):
+    if spec["part"] == "registry":
+        res = {"evals": 0, "nontrivial": [], "counters": {}, "violations": [], "sample": None, "sets": {"interleavings": [], "preemption_lines": []}}
+        part_registry(spec, res)
+        return res
     res = {"evals": 0, "nontrivial": [], "counters": {}, "violations": [], "sample": None, "sets": {"interleavings": [], "preemption_lines": []}}
     if spec["part"] == "history":
         part_history(spec, res)
